@@ -255,6 +255,7 @@ type BatchOpts struct {
 	NullOK     bool
 	NoHot      bool
 	Plain      bool // small-domain, never-null, never-empty tag values (criteria workloads)
+	BoundaryTimes []int64 // timestamps (e.g. segment boundaries) that rows land on exactly now and then (side tape)
 	// > 0: every non-entity tag / every field is null with probability 1/rate (also with Plain/SmallField)
 	NullTagRate, NullFieldRate int
 	SmallField bool // int fields in [-100,100] (rarely int64 extremes), float fields k/4: sums are exact in any order
@@ -302,6 +303,9 @@ func (m *MeasureModel) GenBatch(tp *simcore.Tape, o BatchOpts, batchNo int) []*M
 			} else {
 				r.Ts = o.BaseMs - int64(tp.Choose(int(o.SpanMs)+1))
 			}
+		}
+		if len(o.BoundaryTimes) > 0 && tp.Side().Bool(1, 6) { // exactly on a segment boundary
+			r.Ts = o.BoundaryTimes[tp.Side().Choose(len(o.BoundaryTimes))]
 		}
 		k := fmt.Sprintf("%s@%d", r.Series, r.Ts)
 		if used[k] && !o.Collide {
